@@ -315,3 +315,141 @@ pub fn with_day_budget<T>(steps: u64, f: impl FnOnce() -> T) -> Result<Option<T>
         Err(p) => Err(p),
     }
 }
+
+/// The exact stream the daily schedules define on [d0 00:00, d1 + 1 day 00:00): starts of the
+/// maximal runs of one state, obtained by evaluating EVERY day of the window (no skipping).
+pub fn expected_runs(oh: &Oh, d0: NaiveDate, d1: NaiveDate) -> Result<Vec<(NaiveDateTime, RuleKind)>, String> {
+    guarded(|| {
+        let mut runs: Vec<(NaiveDateTime, RuleKind)> = Vec::new();
+        let mut d = d0;
+        loop {
+            let mut covered_to = ExtendedTime::MIDNIGHT_00;
+            for tr in oh.schedule_at(d) {
+                if tr.range.start >= ExtendedTime::MIDNIGHT_24 {
+                    break;
+                }
+                if runs.last().map(|l| l.1) != Some(tr.kind) {
+                    runs.push((et_to_dt(d, tr.range.start.max(covered_to)), tr.kind));
+                }
+                covered_to = tr.range.end;
+            }
+            if d >= d1 {
+                break;
+            }
+            d = d.succ_opt().unwrap();
+        }
+        runs
+    })
+}
+
+pub struct ExactStats {
+    pub days_evaluated: u64,
+    pub intervals_compared: u64,
+    pub next_change_calls: u64,
+}
+
+/// iter_range over the whole window must produce exactly the expected runs; next_change from a
+/// sample of instants must return the start of the following run (None only at 10000-01-01).
+pub fn check_exact(oh: &Oh, d0: NaiveDate, d1: NaiveDate, r: &mut Rng, nc_samples: usize, st: &mut ExactStats) -> Result<(), String> {
+    let from = d0.and_hms_opt(0, 0, 0).unwrap();
+    let to = (d1.and_hms_opt(0, 0, 0).unwrap() + Duration::days(1)).min(date_end());
+    let runs = expected_runs(oh, d0, d1)?;
+    st.days_evaluated += (d1 - d0).num_days() as u64 + 1;
+    let got = match with_day_budget(20_000_000, || oh.iter_range(from, to).map(|i| (i.range.start, i.range.end, i.kind)).collect::<Vec<_>>())? {
+        Some(g) => g,
+        None => return Err(format!("iter_range({from}, {to}) made more than 20 million day steps")),
+    };
+    for (k, (start, kind)) in runs.iter().enumerate() {
+        let end = runs.get(k + 1).map(|n| n.0).unwrap_or(to);
+        match got.get(k) {
+            None => return Err(format!("iter_range({from}, {to}) ends after {} intervals; the daily schedules give {kind} from {start} to {end}", got.len())),
+            Some((gs, ge, gk)) => {
+                if (gs, ge, gk) != (start, &end, kind) {
+                    return Err(format!("iter_range({from}, {to}) interval #{k} is [{gs}, {ge}) {gk}; evaluating every day gives [{start}, {end}) {kind}"));
+                }
+            }
+        }
+        st.intervals_compared += 1;
+    }
+    if got.len() > runs.len() {
+        let x = got[runs.len()];
+        return Err(format!("iter_range({from}, {to}) yields an extra interval [{}, {}) {} after the window's last run", x.0, x.1, x.2));
+    }
+    // next_change from instants inside sampled runs
+    for _ in 0..nc_samples.min(runs.len()) {
+        let k = r.below(runs.len() as u64) as usize;
+        let (start, kind) = runs[k];
+        let end = runs.get(k + 1).map(|n| n.0).unwrap_or(to);
+        let len = (end - start).num_minutes().max(1);
+        let t = match r.below(3) {
+            0 => start,
+            1 => end - Duration::minutes(1),
+            _ => start + Duration::minutes(r.below(len as u64) as i64),
+        };
+        if k + 1 == runs.len() && to < date_end() {
+            continue; // the last run of the window continues beyond it
+        }
+        let expect = if k + 1 == runs.len() { None } else { Some(end) };
+        st.next_change_calls += 1;
+        match with_day_budget(20_000_000, || oh.next_change(t))? {
+            None => return Err(format!("next_change({t}) made more than 20 million day steps")),
+            Some(g) if g != expect => return Err(format!("next_change({t}) = {g:?}; evaluating every day gives {kind} from {start} until {expect:?}")),
+            _ => {}
+        }
+    }
+    Ok(())
+}
+
+/// One-rule expressions whose day selector takes every value of one parameter (weeks, days of the
+/// year, months, nth weekdays, date offsets, Easter offsets); `part` in 0..6 rotates the larger families.
+pub fn grid_day_selectors(all: bool, part: u64) -> Vec<String> {
+    let months = ["Jan", "Feb", "Mar", "Apr", "May", "Jun", "Jul", "Aug", "Sep", "Oct", "Nov", "Dec"];
+    let mdays = [31u32, 29, 31, 30, 31, 30, 31, 31, 30, 31, 30, 31];
+    let wds = ["Mo", "Tu", "We", "Th", "Fr", "Sa", "Su"];
+    let mut v: Vec<String> = Vec::new();
+    let mut k = 0u64;
+    let mut rot = |v: &mut Vec<String>, s: String, modulo: u64| {
+        k += 1;
+        if all || k % modulo == part % modulo {
+            v.push(s);
+        }
+    };
+    for n in 1..=53 {
+        v.push(format!("week {n:02}"));
+    }
+    for a in 1..=53 {
+        rot(&mut v, format!("week {a:02}-{:02}", 1 + (a + 6) % 53), 4);
+        rot(&mut v, format!("week {a:02}-53/{}", 2 + a % 5), 4);
+    }
+    for (i, m) in months.iter().enumerate() {
+        v.push(m.to_string());
+        for d in 1..=mdays[i] {
+            rot(&mut v, format!("{m} {d:02}"), 6);
+        }
+        for (j, b) in months.iter().enumerate() {
+            if i != j {
+                rot(&mut v, format!("{m}-{b}"), 4);
+                rot(&mut v, format!("{m} {:02}-{b} {:02}", 1 + (i * 7 + j) as u32 % mdays[i], 1 + (i + j * 5) as u32 % mdays[j]), 4);
+            }
+        }
+    }
+    for wd in wds {
+        for n in [1, 2, 3, 4, 5, -1, -2, -3, -4, -5] {
+            v.push(format!("{wd}[{n}]"));
+        }
+        for sign in ['+', '-'] {
+            for (m, d) in [("Jan", 1), ("Feb", 28), ("Mar", 1), ("Jul", 14), ("Dec", 25), ("Dec", 31)] {
+                v.push(format!("{m} {d:02}{sign}{wd}"));
+            }
+        }
+    }
+    for n in (-60..=60i32).filter(|n| *n != 0) {
+        let unit = if n.abs() == 1 { "day" } else { "days" };
+        let sign = if n < 0 { '-' } else { '+' };
+        rot(&mut v, format!("easter {sign}{} {unit}", n.abs()), 4);
+        rot(&mut v, format!("Feb 28 {sign}{} {unit}", n.abs()), 4);
+        rot(&mut v, format!("Dec 31 {sign}{} {unit}-Jan 01 {sign}{} {unit}", n.abs(), n.abs() + 2), 4);
+    }
+    v.push("easter".into());
+    v
+}
